@@ -1,4 +1,5 @@
 pub mod c01;
+pub mod c02;
 pub mod c03;
 pub mod c04;
 pub mod c05;
@@ -20,6 +21,16 @@ pub fn property(id: &str) -> Option<PropertyRun> {
             id: id.into(),
             parts: vec![Box::new(Campaign(c01::C01)), Box::new(Campaign(c01::Equilibrium))],
             assumptions: vec!["reference semantics: floor division/modulo defined for positive divisors only (the behaviour tau_star.rs documents)".into(), "finite extents; only definite verdicts of the exact evaluator and of the reference semantics are compared".into()],
+        },
+        "C02" => PropertyRun {
+            id: id.into(),
+            parts: vec![Box::new(Campaign(c02::C02))],
+            assumptions: vec!["absolute reading of the public vocabulary: a declared output predicate absent from a program is empty in its stable models".into(), "exact mode, finite extents; only definite verdicts are compared; tasks valid by construction (stratified, tight, no private recursion)".into()],
+        },
+        "C19" => PropertyRun {
+            id: id.into(),
+            parts: vec![Box::new(Campaign(c02::C19))],
+            assumptions: vec!["exact mode, finite extents; only definite verdicts are compared".into()],
         },
         "C03" => PropertyRun {
             id: id.into(),
@@ -93,4 +104,4 @@ pub fn property(id: &str) -> Option<PropertyRun> {
     })
 }
 
-pub const ALL: &[&str] = &["C01", "C03", "C04", "C05", "C06", "C07", "C08", "C09", "C11", "C12", "C14", "C15", "C17", "C18"];
+pub const ALL: &[&str] = &["C01", "C02", "C03", "C04", "C05", "C06", "C07", "C08", "C09", "C11", "C12", "C14", "C15", "C17", "C18", "C19"];
